@@ -54,6 +54,10 @@ type config struct {
 	preempt bool
 	bounds  map[string]int
 	shards  int
+	// chain: the cleaner behind the IdleInvoker is the REAL
+	// cleaner.NewChainedCleaner over this many fake cleaners, each of which
+	// may fail (0: one fake cleaner, no chain).
+	chain int
 }
 
 func scenario(c config) *mc.Scenario {
@@ -80,7 +84,15 @@ func scenario(c config) *mc.Scenario {
 			w := newWorld(x, c.maxFaults, c.maxCancels, c.faultAt, c.quiet)
 			cur = w
 			w.relaxed = c.yield
-			idle := re_cleaner.NewIdleInvoker(w.clean)
+			theCleaner := re_cleaner.Cleaner(w.clean)
+			if c.chain > 0 {
+				var links []re_cleaner.Cleaner
+				for i := 0; i < c.chain; i++ {
+					links = append(links, w.chainLink(i, c.chain))
+				}
+				theCleaner = re_cleaner.NewChainedCleaner(links)
+			}
+			idle := re_cleaner.NewIdleInvoker(theCleaner)
 			var counter atomic.Uint64
 			creator := builder.NewSharedBuildDirectoryCreator(
 				builder.NewCleanBuildDirectoryCreator(
@@ -353,6 +365,24 @@ var configs = []config{
 		faultAt:   append(append([]string{}, opsCleaner...), opsRunner...),
 		quiet:     quietDirs,
 		maxFaults: 2, maxCancels: 1, bounds: unbounded,
+	},
+	// --- The production composition of the cleaner: REAL NewChainedCleaner over
+	// 2-3 fake cleaners (build directory, temporary directory, process table),
+	// each of which may fail: if ANY of them failed the action must not start,
+	// whatever the later ones return.
+	{
+		name: "chain3-2users", c14: true, chain: 3,
+		workers:   [][]action{{{nil}}},
+		runnerOps: []string{"Run"},
+		faultAt:   opsCleaner,
+		quiet:     quietDirs,
+		maxFaults: 2, maxCancels: 1, bounds: unbounded,
+	},
+	{
+		name: "chain2-worker-2calls", chain: 2,
+		workers:   [][]action{{{nil}, {&digestA}}},
+		faultAt:   append(append([]string{}, opsCleaner...), "root.Mkdir"),
+		maxFaults: 2, maxCancels: 0, bounds: unbounded,
 	},
 	// --- Error paths of the directory creators under concurrency.
 	{
